@@ -573,10 +573,11 @@ class _Relatable(_LexiconElement):
         *args: str,
         end: Optional[T] = None
     ) -> Iterator[list[T]]:
+        start = {self}  # inferred synsets share one _id but hash differently
         agenda: list[tuple[list[T], set[T]]] = [
             ([target], {self, target})
             for target in self.get_related(*args)
-            if target._id != self._id  # avoid self loops?
+            if target not in start  # avoid self loops
         ]
         while agenda:
             path, visited = agenda.pop()
